@@ -8,7 +8,7 @@ From Coq Require Import QArith Qreduction Permutation Lia.
 Require Import Gatery.Bits.
 Require Import Gatery.gen.EventOrder.
 Require Import Gatery.SchedDefs Gatery.SchedOrder Gatery.SchedClocks Gatery.SchedTime Gatery.SchedRegs Gatery.SchedRun
-               Gatery.SchedExamples.
+               Gatery.SchedReset Gatery.SchedExamples.
 Import ListNotations.
 Local Close Scope Q_scope.
 
@@ -372,3 +372,28 @@ Theorem power_on_outputs cfg comb r s :
   r_out s = match rg_rstval (get_reg cfg r) with Some v => v | None => all_X (rg_width (get_reg cfg r)) end.
 Proof. exact (SchedRun.power_on_outputs cfg comb r s). Qed.
 Print Assumptions power_on_outputs.
+
+(* power-on reset sequencing: a reset pin that any clocked node hangs on is held for a positive time
+   (>= 1 cycle for synchronous, >= 1 period for asynchronous resets, through every chain of derived clocks) ... *)
+Theorem used_reset_pin_held cfg c s :
+  clocks_wf (cfg_clocks cfg) -> mults_positive (cfg_clocks cfg) ->
+  c < length (cfg_clocks cfg) -> has_nodes cfg c = true ->
+  rstsrc (cfg_clocks cfg) c = Some s ->
+  (0 < reset_hold_time cfg s)%Q /\ Qis_zero (reset_hold_time cfg s) = false.
+Proof. exact (SchedReset.used_reset_pin_held cfg c s). Qed.
+Print Assumptions used_reset_pin_held.
+
+(* ... hence the "immediately disable again" branch of powerOn (hold time 0) never touches a register: it only
+   exists for reset pins without clocked nodes (corpus/C04/01_nodeless_reset_pin.cases; the onReset callback of
+   that branch was wrong until the repair recorded in KNOWN_FINDINGS.txt) *)
+Theorem zero_hold_no_register cfg s r :
+  clocks_wf (cfg_clocks cfg) -> mults_positive (cfg_clocks cfg) ->
+  r < length (cfg_regs cfg) -> rg_clk (get_reg cfg r) < length (cfg_clocks cfg) ->
+  Qis_zero (reset_hold_time cfg s) = true -> on_rstpin cfg s r = false.
+Proof. exact (SchedReset.zero_hold_no_register cfg s r). Qed.
+Print Assumptions zero_hold_no_register.
+
+Example reset_hold_ex :
+  mults_positive (cfg_clocks ex_cfg) /\
+  map (fun s => (s, reset_hold_time ex_cfg s)) (reset_pins ex_cfg) = [(0, (1 # 3)%Q); (1, (1 # 7)%Q)].
+Proof. exact ex_hold. Qed.
